@@ -7,7 +7,7 @@
 (* character, 5 = '/'.                                                     *)
 (***************************************************************************)
 EXTENDS World
-CONSTANTS MaxRecs, ProbeLen, Tier
+CONSTANTS MaxRecs, ProbeLen, Tier, MaxSyn
 
 Fold(ch) == IF ch = 2 THEN <<1>> ELSE <<ch>>
 Delim1 == <<4>>
@@ -20,10 +20,12 @@ Delims == {Delim1, Delim2}
 PPool == IF Tier = "quick" THEN {<<>>, <<1>>, <<2>>} ELSE {<<>>, <<1>>, <<2>>, <<3>>}
 \* URI prefixes: empty, a nested chain a < ab < aba, a sibling, and one that makes
 \* "a:b" both a CURIE and a URI
-UPool == IF Tier = "quick" THEN {<<>>, <<1>>, <<1, 3>>, <<1, 4>>}
+UPool == IF MaxSyn = 0 THEN {<<>>, <<1>>, <<1, 3>>, <<1, 3, 1>>, <<1, 4>>, <<3>>}
+         ELSE IF Tier = "quick" THEN {<<>>, <<1>>, <<1, 3>>, <<1, 4>>}
          ELSE {<<>>, <<1>>, <<1, 3>>, <<1, 3, 1>>, <<3>>, <<1, 4>>}
 
-Opt(S) == {{}} \cup {{x} : x \in S}
+\* MaxSyn = 0: plain records only (used with three records: a chain of three nested URI prefixes)
+Opt(S) == IF MaxSyn = 0 THEN {{}} ELSE {{}} \cup {{x} : x \in S}
 RecPool == {Rec(p, u, ps, us, NoPat) : p \in PPool, u \in UPool, ps \in Opt(PPool), us \in Opt(UPool)}
 ValidPool == {r \in RecPool : ValidRec(r)}
 \* a canonical order on records so that each record SET is enumerated once
